@@ -1,12 +1,19 @@
 (* One entry point for the correspondence check: a case line in, the model's and the spec's canonical
    result lines out.  Extracted to OCaml (ExtrOcamlBasic only) and also evaluated by vm_compute. *)
 From Coq Require Import NArith ZArith List Bool String.
-From KT Require Import Model.Show Model.Ops.
+From KT Require Import Model.Show Model.Ops Model.Rows.
 Import ListNotations.
 Open Scope N_scope.
 
 Definition is (name : string) (tok : list N) : bool := list_eqb (str name) tok.
 Definition unknown : list N * list N := ([63], [63]).
+
+Definition flag (t : list N) : bool := list_eqb t [49].
+Definition parse_Z (t : list N) : Z := Z.of_N (parse_dec t).
+(* "x:c,x:c,..." or "_" *)
+Definition parse_table (t : list N) : list (N * N) :=
+  if list_eqb t [95] then [] else
+  map (fun e => match split_on 58 e with [a; b] => (parse_dec a, parse_dec b) | _ => (0, 0) end) (split_on 44 t).
 
 Definition dispatch (line : list N) : list N * list N :=
   match split_on 32 line with
@@ -14,6 +21,7 @@ Definition dispatch (line : list N) : list N * list N :=
       if is "kg" op then (m_kg (parse_nat a) (parse_hex b), s_kg (parse_nat a) (parse_hex b))
       else if is "rc" op then (m_rc (parse_nat a) (parse_dec b), s_rc (parse_nat a) (parse_dec b))
       else if is "dec" op then (m_dec (parse_nat a) (parse_dec b), s_dec (parse_nat a) (parse_dec b))
+      else if is "cgr" op then (m_cgr (parse_Z a) (parse_hex b), s_cgr (parse_Z a) (parse_hex b))
       else unknown
   | [op; a] =>
       if is "posmap" op then (m_posmap (parse_nat a), s_posmap (parse_nat a))
@@ -22,6 +30,14 @@ Definition dispatch (line : list N) : list N * list N :=
   | [op; a; b; c] =>
       if is "mg" op then (m_mg (parse_nat a) (parse_nat b) (parse_hex c), s_mg (parse_nat a) (parse_nat b) (parse_hex c))
       else if is "kmg" op then (m_kmg (parse_nat a) (parse_nat b) (parse_hex c), s_kmg (parse_nat a) (parse_nat b) (parse_hex c))
+      else if is "oligo" op then (m_oligo (parse_nat a) (flag b) (parse_hex c), s_oligo (parse_nat a) (flag b) (parse_hex c))
+      else unknown
+  | [op; a; b; c; d] =>
+      if is "ocgr" op then (m_ocgr (parse_nat a) (parse_Z b) (flag c) (parse_hex d), s_ocgr (parse_nat a) (parse_Z b) (flag c) (parse_hex d))
+      else unknown
+  | [op; a; b; c; d; e; f] =>
+      if is "covrow" op then (m_covrow (parse_nat a) (parse_nat b) (parse_nat c) (flag d) (parse_table e) (parse_hex f),
+                              s_covrow (parse_nat a) (parse_nat b) (parse_nat c) (flag d) (parse_table e) (parse_hex f))
       else unknown
   | _ => unknown
   end.
